@@ -62,4 +62,13 @@ theorem wrap_conds_src : wrap_conds = "ri.QType == dns.TypeTXT | err != nil | re
 theorem wire_adult_src : wire_adult = "b.adultBlockingHashes" := by decide
 theorem wire_general_src : wire_general = "b.safeBrowsingHashes" := by decide
 
+/-- `Hashes` reads the shared pointer once and never through the per-prefix helper; `Matches`
+reads it once through the helper, which loads once: a lookup works on one map, whatever `Reset`
+does meanwhile (`hashesLoads_snapshot`, `hashes_during_resets_spec`). -/
+theorem hashes_loads_src : hashes_loads = "Load" := by decide
+theorem matches_loads_src : matches_loads = "loadHashSuffixes" := by decide
+theorem load_helper_loads_src : load_helper_loads = "Load" := by decide
+/-- `MatchByPrefix` hands all prefixes of the question to one `Hashes` call. -/
+theorem mbp_hashes_args_src : mbp_hashes_args = "hashPrefixes" := by decide
+
 end Agd.Tie.C11
